@@ -240,9 +240,90 @@ def c08_confirm(chk, key, dom, mine, obs):
             chk.notes.append("unreproduced: %s %s" % (o["id"], name))
 
 
+# --- the admission webhooks as acceptance gate (create / update of one object against the stored ones)
+
+C08_WH = [("configwebhook1", "internal/k8s/webhooks/webhookv1beta1", "^TestVerifCfgWebhookV1$"),
+          ("configwebhook2", "internal/k8s/webhooks/webhookv1beta2", "^TestVerifCfgWebhookV2$")]
+
+
+def c08_wh_harness(chk, scens, tag):
+    scen = os.path.join(chk.work, "c08wh_scen_%s.ndjson" % tag)
+    with open(scen, "w") as fh:
+        for s in scens:
+            fh.write(json.dumps(s) + "\n")
+    obs_all = os.path.join(chk.work, "c08wh_obs_%s.ndjson" % tag)
+    with open(obs_all, "w") as out:
+        for hdir, pkg, run in C08_WH:
+            obs = os.path.join(chk.work, "c08wh_obs_%s_%s.ndjson" % (tag, hdir))
+            ov = vlib.overlay_for(_own_mapping(hdir, pkg, ["webhook_test.go"]), os.path.join(chk.work, "ov_" + hdir))
+            rc, o = vlib.go_test(pkg, run, ov, {"VERIF_SCENARIOS": scen, "VERIF_OBS": obs})
+            if rc != 0:
+                raise vlib.Inconclusive("webhook harness %s failed (rc=%s):\n%s" % (hdir, rc, o[-3000:]))
+            out.write(open(obs).read())
+    return obs_all
+
+
+def c08_wh_signature(name, o):
+    return "%s|kind=%s|op=%s" % (name, o["scen"]["kind"], o["op"])
+
+
+def c08_wh_judge(chk, obs_path):
+    return vlib.run_judge_parallel(chk, "ConfigWebhookTrace", "ConfigWebhookTrace.cfg", obs_path, walk_key="id")
+
+
+def c08_run_webhooks(chk):
+    scens = []
+    res = _tlc(os.path.join(chk.work, "gen_webhook"), "ConfigWebhookMC", "ConfigWebhookMC.cfg", workers=2, timeout=600, heap="2g",
+               json_sink=lambda o: scens.append(o) if "scen" in o else None)
+    chk.add_model_run("ConfigWebhookMC.cfg", res)
+    if res.violated:
+        print("MODEL-ONLY: ConfigWebhookMC violates %s in the design model" % res.violated)
+        chk.notes.append("MODEL-ONLY: ConfigWebhookMC violates %s" % res.violated)
+    elif res.error:
+        raise vlib.Inconclusive("TLC ConfigWebhookMC: %s" % res.error)
+    if not scens:
+        raise vlib.Inconclusive("ConfigWebhookMC produced no scenario: " + res.out[-800:])
+    scens.sort(key=lambda s: vlib.canon(s["scen"]))
+    for n, s in enumerate(scens):
+        s["id"] = "wh-%d" % n
+    obs_path = c08_wh_harness(chk, scens, "main")
+    fails, nlines = c08_wh_judge(chk, obs_path)
+    obs = [json.loads(l) for l in open(obs_path)]
+    if len(obs) != len(scens):
+        raise vlib.Inconclusive("webhook harnesses logged %d observations for %d scenarios" % (len(obs), len(scens)))
+    chk.cov["traces_validated_against_impl"] += len(obs)
+    chk.cov["evaluations"] += nlines
+    chk.cov["distinct_nontrivial"] += sum(1 for o in obs if o["calls"])
+    chk.cov["webhook"] = {"scenarios": len(obs), "admitted": sum(1 for o in obs if o["admit"]),
+                          "denied": sum(1 for o in obs if not o["admit"]),
+                          "updates": sum(1 for o in obs if o["op"] == "update")}
+    chk.cov["samples"].append({"kind": "webhook", "observation": next((o for o in obs if o["op"] == "update" and not o["admit"]), obs[0])})
+    vlib.log("  webhooks: %d scenarios, %d admitted, %d failing lines" % (len(obs), chk.cov["webhook"]["admitted"], len(fails)))
+    if not fails:
+        return
+    byid = {s["id"]: s for s in scens}
+    sel = {}
+    for f in fails:
+        o = obs[f["line"] - 1]
+        for name in f["fails"]:
+            sel.setdefault((c08_wh_signature(name, o), name), o)
+    again = [byid[o["id"]] for o in {o["id"]: o for o in sel.values()}.values()]
+    obs2_path = c08_wh_harness(chk, again, "confirm")
+    fails2, _ = c08_wh_judge(chk, obs2_path)
+    obs2 = [json.loads(l) for l in open(obs2_path)]
+    confirmed = {(obs2[f["line"] - 1]["id"], n) for f in fails2 for n in f["fails"]}
+    for (sig, name), o in sorted(sel.items()):
+        if (o["id"], name) in confirmed:
+            chk.fail(sig, name, detail={"observation": o},
+                     scenario={"family": "config", "prop": "C08", "kind": "webhook", "scen": byid[o["id"]]["scen"]})
+        else:
+            chk.notes.append("unreproduced: %s %s" % (o["id"], name))
+
+
 def c08_run(chk):
     for key, frac in C08_TIERS[chk.tier]:
         c08_run_one(chk, key, frac)
+    c08_run_webhooks(chk)
     chk.cov["rule"] = ("TLC enumerates every snapshot of each slice of spec/ConfigParseMC.tla (single entries in every "
                        "spelling, pairs and triples of pools, two-entry pools, node addresses, advertisement attachment, "
                        "aggregation lengths, local-preference pairs) over a W-bit window per family; the quick tier keeps "
@@ -256,11 +337,26 @@ def c08_run(chk):
         "the aggregate clause is judged in its weaker reading (aggregate inside the pool's address set), so that a loader "
         "accepting an aggregate spanning two adjacent CIDRs of the same pool would not be flagged",
         "a local-preference clash is demanded to be rejected only when a common node and a common EXISTING peer are certain",
-        "label selectors are matchLabels on one key; peers select every node"]
+        "label selectors are matchLabels on one key; peers select every node",
+        "webhook part: the validating webhooks are driven through validate*Create / validate*Update (what Handle calls after decoding); "
+        "the stored objects are valid; admitted => the real validator accepts the lists the webhook consulted with the true resulting list"]
 
 
 def c08_replay(chk, body):
     sc = body["scenario"]
+    if sc.get("kind") == "webhook":
+        obs_path = c08_wh_harness(chk, [{"id": "replay-0", "scen": sc["scen"]}], "replay")
+        fails, nlines = c08_wh_judge(chk, obs_path)
+        obs = [json.loads(l) for l in open(obs_path)]
+        chk.cov["states"] = chk.cov["transitions"] = 1
+        chk.cov["evaluations"] = nlines
+        chk.cov["distinct_nontrivial"] = 1
+        chk.cov["traces_validated_against_impl"] = 1
+        chk.cov["samples"].append({"scenario": sc["scen"], "observation": obs[0]})
+        for f in fails:
+            for name in f["fails"]:
+                chk.fail(c08_wh_signature(name, obs[f["line"] - 1]), name, detail={"observation": obs[f["line"] - 1]}, scenario=sc)
+        return
     snap = {"id": "replay-0", "snap": sc["snap"]}
     obs_path = c08_harness(chk, [snap], sc["domain"], "replay")
     fails, nlines = c08_judge(chk, sc["dom"], obs_path)
@@ -286,7 +382,8 @@ C18_RECON = {"quick": [("pool3", "pool", 3, 400, 12, "record"), ("pool2", "pool"
                        ("config3", "config", 3, 350, 12, "record"), ("config0", "config", 0, 500, 6, "record"),
                        ("configadv", "config", 0, 300, 12, "record"),
                        # the PoolReconciler feeding the REAL consumer (allocator.SetPools + ReprocessAll, as controller.SetPools)
-                       ("pool0", "pool", 0, 150, 4, "allocator"), ("pool3", "pool", 0, 300, 4, "allocator"),
+                       ("pool0", "pool", 0, 150, 4, "allocator"), ("pool3", "pool", 3, 300, 4, "allocator"),
+                       ("pool2", "pool", 2, 200, 4, "allocator"), ("pool3", "pool", 1, 150, 4, "allocator"),
                        # the ConfigReconciler feeding the REAL speaker controller with the native session manager
                        ("speaker", "speaker", 0, 500, 4, "speaker-native")],
              "thorough": [("pool3", "pool", 3, None, 25, "record"), ("pool2", "pool", 2, None, 25, "record"),
@@ -294,7 +391,8 @@ C18_RECON = {"quick": [("pool3", "pool", 3, 400, 12, "record"), ("pool2", "pool"
                           ("config3", "config", 3, None, 25, "record"), ("config0", "config", 0, None, 10, "record"),
                           ("configadv", "config", 0, None, 25, "record"),
                           ("pool0", "pool", 0, None, 6, "allocator"), ("pool3", "pool", 0, None, 6, "allocator"),
-                          ("pool3", "pool", 3, None, 6, "allocator"),
+                          ("pool3", "pool", 3, None, 6, "allocator"), ("pool2", "pool", 2, None, 6, "allocator"),
+                          ("pool3", "pool", 1, None, 6, "allocator"),
                           ("speaker", "speaker", 0, 12000, 4, "speaker-native")]}
 
 
